@@ -77,9 +77,9 @@ def gram_passes(pid, tier):
             P.append(('NT2 T3 R=4 W<=5, strings<=3', base + ['--nt', '2', '--t', '3', '--err', '0', '--minR', '4', '--maxlen', '3']))
     if pid == 'C16':
         P.append(('NT2 T2 R<=3 W<=4, inputs<=4 over terminals + space, newline and a foreign byte (positions in the trace, lexer trace lines)', base + ['--nt', '2', '--t', '2', '--err', '0', '--maxR', '2' if q else '3', '--maxW', '4', '--maxlen', '4', '--rich']))
-        P.append(('error-rule frames NT2 T2, strings<=4', base + ['--nt', '2', '--t', '2', '--err', '1', '--maxR', '2' if q else '3', '--maxlen', '4']))
+        P.append(('error-rule frames NT2 T2, strings<=4 plus the runs a^40, a^40 b, b a^40 b (long discard runs in the trace)', base + ['--nt', '2', '--t', '2', '--err', '1', '--maxR', '2' if q else '3', '--maxlen', '4', '--long-words', '40']))
     if pid == 'C08':
-        P.append(('error-rule frames NT2 T2 R<=%d, strings<=%d' % (3 if q else 4, 4 if q else 8), base + ['--nt', '2', '--t', '2', '--err', '1', '--maxlen', '4' if q else '8'] + (['--maxR', '3'] if q else [])))
+        P.append(('error-rule frames NT2 T2 R<=%d, strings<=%d' % (3 if q else 4, 4 if q else 8), base + ['--nt', '2', '--t', '2', '--err', '1', '--maxlen', '4' if q else '8', '--long-words', '40'] + (['--maxR', '3'] if q else [])))
         P.append(('error-rule frames NT2 T3, strings<=%d' % (4 if q else 6), base + ['--nt', '2', '--t', '3', '--err', '1', '--maxlen', '4' if q else '6']))
         P.append(('seed grammars', base + ['--maxlen', '5', '--max-per-frame', '0', '--seeds', os.path.join(VERIF, 'seeds', 'gram_seeds.txt')]))
     if pid == 'C18':
@@ -479,7 +479,7 @@ def c07_one(gname, n, comp, work):
     m = json.load(open(mp)); lines = {int(k): v for k, v in m['lines'].items()}; inputs = m['inputs']
     inc = ['-std=c++17', '-I' + os.path.join(REPO, 'include')]
     if comp == 'g++': syn = ['g++'] + inc + ['-fsyntax-only', '-fmax-errors=0', '-fconstexpr-ops-limit=2000000000', '-fconstexpr-loop-limit=100000000', src]
-    else: syn = ['clang++'] + inc + ['-fsyntax-only', '-ferror-limit=0', '-fconstexpr-steps=400000000', src]
+    else: syn = ['clang++'] + inc + ['-fsyntax-only', '-ferror-limit=0', '-fconstexpr-steps=2000000000', '-fbracket-depth=8192', src]
     r = sh(syn)
     bad = {}; other = []
     base = os.path.basename(src)
@@ -500,7 +500,7 @@ def c07_one(gname, n, comp, work):
     res = {'grammar': gname, 'compiler': comp, 'cases': len(inputs), 'not_constant': [(i, inputs[i], bad[i]) for i in sorted(bad)], 'other_errors': other[:3]}
     if other: return res
     exe = src[:-4]
-    flags = ['-O1'] + (['-fconstexpr-ops-limit=2000000000', '-fconstexpr-loop-limit=100000000'] if comp == 'g++' else ['-fconstexpr-steps=400000000'])
+    flags = ['-O1'] + (['-fconstexpr-ops-limit=2000000000', '-fconstexpr-loop-limit=100000000'] if comp == 'g++' else ['-fconstexpr-steps=2000000000', '-fbracket-depth=8192'])
     r = sh([comp] + inc + flags + ['-DNOCE_%d' % i for i in bad] + [src, '-o', exe])
     if r.returncode != 0: res['other_errors'] = [(r.stdout + r.stderr)[-600:]]; return res
     r = sh([exe], timeout=600)
@@ -513,7 +513,7 @@ def c07_one(gname, n, comp, work):
 
 def run_c07(pid, tier, rep, deadline_s):
     q = tier == 'quick'
-    plan = [('stars', 4 if q else 7), ('expr', 3 if q else 5), ('recovery', 4 if q else 6), ('numbers', 3 if q else 6), ('nul', 4 if q else 7)]
+    plan = [('stars', 4 if q else 7), ('expr', 3 if q else 5), ('recovery', 4 if q else 6), ('numbers', 3 if q else 6), ('nul', 4 if q else 7), ('stars-long', 0), ('recovery-long', 0), ('expr-long', 0)]
     work = os.path.join(BUILD, 'run-C07-%s%s' % (tier, ('-%d' % os.getpid()) if _SCRATCH else '')); shutil.rmtree(work, ignore_errors=True); os.makedirs(work)
     jobs = [(g, n, c) for (g, n) in plan for c in ('g++', 'clang++')]
     from concurrent.futures import ThreadPoolExecutor
@@ -521,7 +521,7 @@ def run_c07(pid, tier, rep, deadline_s):
     shutil.rmtree(work, ignore_errors=True)
     cases = checks = ce = acc = 0; samples = []; bounds = []
     for r in results:
-        label = '%s grammar, inputs<=%d, %s' % (r['grammar'], dict(plan)[r['grammar']], r['compiler'])
+        label = ('%s grammar, inputs<=%d, %s' % (r['grammar'], dict(plan)[r['grammar']], r['compiler'])) if not r['grammar'].endswith('-long') else ('%s grammar, literals of 100..2049 characters / nesting to 600 (one-dimensional sweep), %s' % (r['grammar'][:-5], r['compiler']))
         if r['other_errors']:
             rep.add({'kind': 'does-not-compile', 'known': '', 'engine': 'ct', 'summary': '%s: the generated unit does not compile: %s' % (label, ' / '.join(map(str, r['other_errors']))[:500])}); bounds.append({'pass': label, 'completed': False}); continue
         for (i, text, msg) in r['not_constant'][:3]:
